@@ -158,8 +158,15 @@ def execute(b, e, tid, form="top"):
     pre, _ = snapshot(everything, [])
     ev = {"tid": tid, "call": e, "form": form, "outcome": "ok", "shape": [], "den": [1] * len(e["sensors"]), "out": [], "ok_reshape": False}
     try:
-        src_arg = sources if len(sources) > 1 or form == "list" else sources[0]
+        src_arg = sources if len(sources) > 1 or form in ("list", "obs_coll", "obs_nested") else sources[0]
         obs_arg = sensors if len(sensors) > 1 or form == "list" else sensors[0]
+        if form in ("obs_coll", "obs_nested") and len({id(x) for x in sensors}) == len(sensors):
+            # observers given as a Collection of the sensors (nested: the tail in a sub-collection): same sensors in depth-first order
+            if form == "obs_nested" and len(sensors) > 1:
+                obs_arg = m.Collection(sensors[0], m.Collection(*sensors[1:]))
+            else:
+                obs_arg = m.Collection(*sensors)
+            everything = everything + [obs_arg]
         out = fn(src_arg, obs_arg, sumup=e["sumup"], squeeze=e["squeeze"], pixel_agg=None if e["agg"] == "none" else e["agg"])
         ev["shape"] = [int(x) for x in np.shape(out)]
         can, dens = canonical(np.asarray(out), e)
@@ -181,7 +188,7 @@ def run_scenarios(args):
     with open(path, "w") as f:
         for i, e in enumerate(scen):
             b = Builder(k)
-            ev = execute(b, e, tid0 + n, form="list" if i % 2 else "top")
+            ev = execute(b, e, tid0 + n, form=("top", "list", "obs_coll", "obs_nested")[i % 4])
             ev["kappa"] = k.describe() if k else {}
             f.write(json.dumps(ev, separators=(",", ":")) + "\n")
             n += 1
